@@ -49,6 +49,7 @@ const (
 	sigLastDeleted   = "last-slot-deleted"
 	sigSecondInit    = "second-initialize-accepted"
 	sigFailedChanged = "failed-operation-changed-state"
+	sigTamperOp      = "tampered-storage-accepted-by-add-or-delete"
 	garbageKey       = "-----BEGIN PGP NOTHING-----\nnot a key\n-----END PGP NOTHING-----"
 	poolSize         = 6
 	idxEmpty         = -1
@@ -301,7 +302,12 @@ func TestC20(t *testing.T) {
 			"inside and outside the blobs (classified by decoding and diffing); and, beyond single-field, bytes moved across the boundary of two sorted-adjacent blobs. Oracle: a failing " +
 			"UnmarshalBinary counts as detected; otherwise every originally-live (id, own key) retrieval must fail for alterations the statement lists (blob, slot set, integrity tag), no retrieval " +
 			"over (all present + original + never-added ids) x (pool keys, attacker key, empty, non-key) may return anything but the original master key, and no pairing that was not live may recover " +
-			"it. StorageVersion / Algorithm changes and benign duplicates are only counted. Each corruption case is non-trivial by itself; distinct = (state, variant)")
+			"it. StorageVersion / Algorithm changes and benign duplicates are only counted. In a seeded third of the corruption cases (and twice on the unaltered bytes as a control) a fresh load " +
+			"of the altered bytes first receives one AddKeySlot(new id, pool key) or DeleteKeySlot (when >= 2 slots) authenticated by an originally-live slot with its own key (preferably a slot " +
+			"the alteration did not touch; for an injected attacker slot also authenticated by that slot) BEFORE any retrieval: since these operations retrieve the key to authenticate, they must be " +
+			"refused for blob / slot-set / tag alterations, and afterwards - refused or not - the same retrieval oracle is applied, once directly and once after one more MarshalBinary -> " +
+			"UnmarshalBinary round trip. For the alterations that leave the tag input unchanged (order-preserving rename, empty slot, boundary shift) an accepted operation is reported under the " +
+			"signature of that class. Each corruption case is non-trivial by itself; distinct = (state, variant, with/without the operation)")
 		c.Assume("PGP key generation and encryption use crypto/rand inside gopenpgp: the shape of every script / corruption (ops, ids, key indices, byte offsets) derives from the seed, the ciphertext bytes do not")
 		c.Assume("argument validation beyond what the statement names (wrong-length master key, empty ids, wrong credentials for add/delete) is not demanded: the implementation's answer is taken and counted (counters free_op_accepted_*)")
 		c.Assume("StorageVersion and Algorithm are not among the alterations the statement promises to detect: their detection is recorded as information only")
@@ -310,7 +316,8 @@ func TestC20(t *testing.T) {
 		c.Require("scripts", "matrix_cells_checked", "matrix_success_cells", "matrix_failure_cells", "deleted_slot_probes", "adds_ok", "deletes_ok", "roundtrips_initialised",
 			"failed_ops_state_compared", "add_existing_slot_checked", "delete_last_slot_checked", "second_initialize_checked", "add_wrong_credentials_checked", "delete_wrong_key_checked",
 			"corruption_states", "corruptions_checked", "renames_checked", "renames_order_preserved", "renames_order_changed", "corr_blob", "corr_swap", "corr_add", "corr_remove", "corr_hmac",
-			"corr_raw_flips", "corr_live_retrievals_checked")
+			"corr_raw_flips", "corr_live_retrievals_checked", "corr_then_add_checked", "corr_then_delete_checked", "corr_then_op_refused", "corr_then_op_with_untouched_authenticating_slot",
+			"corr_then_add_control_ok", "corr_then_delete_control_ok", "corr_then_roundtrip_matrices", "corr_then_op_add", "corr_then_op_remove", "corr_then_op_blob")
 
 		p, err := newPool()
 		if err != nil {
@@ -322,34 +329,37 @@ func TestC20(t *testing.T) {
 		nScripts := c.N(300, 30000)
 		nStates := c.N(60, 5000)
 
+		// work queue: a task may submit sub-tasks (a corruption state fans its variants out in chunks); the capacity covers every task
 		var wg sync.WaitGroup
 
-		sem := make(chan struct{}, 16)
+		tasks := make(chan func(), nScripts+nStates*16+64)
 
-		run := func(f func()) {
+		submit := func(f func()) {
 			wg.Add(1)
-			sem <- struct{}{}
+			tasks <- f
+		}
 
+		for w := 0; w < 16; w++ {
 			go func() {
-				defer wg.Done()
-				defer func() { <-sem }()
-
-				f()
+				for f := range tasks {
+					f()
+					wg.Done()
+				}
 			}()
 		}
 
 		for k := 0; k < nScripts || k < nStates; k++ {
 			if k < nStates {
-				run(func() {
+				submit(func() {
 					cn := counters{}
 					defer cn.flush(c)
 
-					corruptionState(c, p, rand.New(rand.NewPCG(uint64(c.Seed), uint64(9_000_000+k))), k, cn)
+					corruptionState(c, p, rand.New(rand.NewPCG(uint64(c.Seed), uint64(9_000_000+k))), k, cn, submit)
 				})
 			}
 
 			if k < nScripts {
-				run(func() {
+				submit(func() {
 					cn := counters{}
 					defer cn.flush(c)
 
@@ -359,6 +369,7 @@ func TestC20(t *testing.T) {
 		}
 
 		wg.Wait()
+		close(tasks)
 	})
 }
 
@@ -1487,7 +1498,7 @@ func buildVariants(p *pool, rng *rand.Rand, st *corrState, cn counters) []varian
 	return out
 }
 
-func corruptionState(c *vk.C, p *pool, rng *rand.Rand, k int, cn counters) {
+func corruptionState(c *vk.C, p *pool, rng *rand.Rand, k int, cn counters, submit func(func())) {
 	st := buildState(c, p, rng, k)
 	if st == nil {
 		return
@@ -1517,8 +1528,15 @@ func corruptionState(c *vk.C, p *pool, rng *rand.Rand, k int, cn counters) {
 		}
 	}
 
-	// the unaltered serialized form must behave: every live slot recovers the master key
-	if !evalVariant(c, p, st, creds, variant{Name: "baseline", Class: "baseline", Data: st.raw}, cn) {
+	opRng := func(i int) *rand.Rand {
+		return rand.New(rand.NewPCG(uint64(c.Seed), uint64(20_000_000+k)*4096+uint64(i)))
+	}
+
+	// the unaltered serialized form must behave: every live slot recovers the master key, also after an AddKeySlot / DeleteKeySlot
+	// on the freshly loaded storage and one more round trip (this is also the control of the pre-retrieval operation itself)
+	base := variant{Name: "baseline", Class: "baseline", Data: st.raw}
+
+	if !evalVariant(c, p, st, creds, base, cn, nil) || !evalVariant(c, p, st, creds, base, cn, opRng(4000)) || !evalVariant(c, p, st, creds, base, cn, opRng(4001)) {
 		return
 	}
 
@@ -1526,11 +1544,32 @@ func corruptionState(c *vk.C, p *pool, rng *rand.Rand, k int, cn counters) {
 
 	var names []string
 
-	for i, v := range variants {
+	for _, v := range variants {
 		names = append(names, v.Name)
+	}
 
-		evalVariant(c, p, st, creds, v, cn)
-		c.Case(vk.Hash("corruption", k, i, v.Name, v.Note), true)
+	const chunk = 12
+
+	for lo := 0; lo < len(variants); lo += chunk {
+		hi := min(lo+chunk, len(variants))
+
+		submit(func() {
+			cn := counters{}
+			defer cn.flush(c)
+
+			for i := lo; i < hi; i++ {
+				v := variants[i]
+
+				evalVariant(c, p, st, creds, v, cn, nil)
+				c.Case(vk.Hash("corruption", k, i, v.Name, v.Note), true)
+
+				// seeded subset: AddKeySlot / DeleteKeySlot with valid credentials on the freshly loaded altered storage BEFORE any retrieval
+				if r := opRng(i); r.IntN(3) == 0 {
+					evalVariant(c, p, st, creds, v, cn, r)
+					c.Case(vk.Hash("corruption-then-op", k, i, v.Name, v.Note), true)
+				}
+			}
+		})
 	}
 
 	if k == 0 {
@@ -1538,8 +1577,28 @@ func corruptionState(c *vk.C, p *pool, rng *rand.Rand, k int, cn counters) {
 	}
 }
 
-// evalVariant loads the altered bytes into a fresh KeyStorage and probes it. Returns false if a violation was reported.
-func evalVariant(c *vk.C, p *pool, st *corrState, creds []cred, v variant, cn counters) bool {
+// classes whose alteration leaves the input of the integrity tag unchanged: an AddKeySlot / DeleteKeySlot accepted on such a storage is the
+// same witness as the undetected retrieval and keeps the signature of the class.
+var tagInvisible = map[string]bool{"rename-preserved": true, "add-empty": true, "shift": true}
+
+type preOp struct {
+	Kind     string `json:"kind"` // add | delete | add-via-injected-slot
+	NewID    string `json:"new_id,omitempty"`
+	NewKey   string `json:"new_key,omitempty"`
+	AuthID   string `json:"slot_id"`
+	AuthCred string `json:"slot_cred"`
+	Intact   bool   `json:"authenticating_slot_untouched"`
+	OK       bool   `json:"accepted"`
+	Err      string `json:"err,omitempty"`
+
+	newKeyIdx int
+	authPriv  string
+}
+
+// evalVariant loads the altered bytes into a fresh KeyStorage and probes it; with opRng != nil one AddKeySlot / DeleteKeySlot with valid
+// credentials is performed on the freshly loaded storage before the first retrieval, and the retrieval matrix is repeated after one more
+// MarshalBinary -> UnmarshalBinary round trip. Returns false if a violation was reported.
+func evalVariant(c *vk.C, p *pool, st *corrState, creds []cred, v variant, cn counters, opRng *rand.Rand) bool {
 	class, note := v.Class, v.Note
 
 	var decoded key_storage.Storage
@@ -1547,8 +1606,6 @@ func evalVariant(c *vk.C, p *pool, st *corrState, creds []cred, v variant, cn co
 	decErr := decoded.UnmarshalVT(v.Data)
 
 	if class == "raw" {
-		cn["corr_raw_flips"]++
-
 		switch {
 		case decErr != nil:
 			class = "raw-undecodable"
@@ -1557,21 +1614,38 @@ func evalVariant(c *vk.C, p *pool, st *corrState, creds []cred, v variant, cn co
 
 			class, cnote = classify(st.base, &decoded)
 			note += "; decoded difference: " + cnote
-			cn["corr_raw_as_"+class]++
+		}
+
+		if opRng == nil {
+			cn["corr_raw_flips"]++
+
+			if decErr == nil {
+				cn["corr_raw_as_"+class]++
+			}
 		}
 	}
 
-	if class != "baseline" {
+	if class != "baseline" && opRng == nil {
 		cn["corruptions_checked"]++
 		cn["corr_"+class]++
 	}
 
+	var op *preOp
+
+	phase := "after-load"
+
 	detailBase := func() map[string]any {
-		return map[string]any{
+		d := map[string]any{
 			"mode": "corruption", "state": st.k, "history": st.history, "live": st.slots, "deleted_through_api": st.deleted, "master_hex": hex.EncodeToString(st.master),
 			"variant": v.Name, "class": class, "note": note, "original_b64": base64.StdEncoding.EncodeToString(st.raw), "altered_b64": base64.StdEncoding.EncodeToString(v.Data),
-			"original": describeStorage(st.base), "altered": describeStorage(&decoded),
+			"original": describeStorage(st.base), "altered": describeStorage(&decoded), "phase": phase,
 		}
+
+		if op != nil {
+			d["operation_before_first_retrieval"] = *op
+		}
+
+		return d
 	}
 
 	ks := &keystorage.KeyStorage{}
@@ -1586,7 +1660,9 @@ func evalVariant(c *vk.C, p *pool, st *corrState, creds []cred, v variant, cn co
 	}
 
 	if loadErr != nil {
-		cn["corr_"+class+"_detected_at_unmarshal"]++
+		if opRng == nil {
+			cn["corr_"+class+"_detected_at_unmarshal"]++
+		}
 
 		if class == "baseline" {
 			d := detailBase()
@@ -1616,125 +1692,349 @@ func evalVariant(c *vk.C, p *pool, st *corrState, creds []cred, v variant, cn co
 	}
 
 	strictSig := classSig[class]
-	undetected := 0
 
-	for _, id := range sortedKeys(idSet) {
-		keyIdx, live := st.slots[id]
+	// pairings that are live: the original ones, changed only by an operation accepted on an unaltered / informational-class storage
+	liveMap := map[string]int{}
+	for id, idx := range st.slots {
+		liveMap[id] = idx
+	}
 
-		for _, cr := range creds {
-			r := get(ks, id, cr.Priv)
-			cn["corr_retrievals"]++
+	deletedNow := ""
+	violated := false
 
-			livePair := live && cr.Idx == keyIdx
+	// ---- the operation before the first retrieval ------------------------------------------------------------------------
+	if opRng != nil {
+		var intact []string
 
-			d := func() map[string]any {
-				d := detailBase()
-				d["probe_id"], d["probe_cred"], d["probe_private_key"], d["live_pair"] = id, cr.Name, cr.Priv, livePair
-				d["err"], d["got_key_hex"], d["load_err"] = errStr(r.Err), hex.EncodeToString(r.Key), errStr(loadErr)
-
-				if r.Err == nil && r.Panic == nil {
-					d["effect"] = "a pairing that was never live recovered the master key from the altered storage"
-					if livePair {
-						d["effect"] = "retrieval through a live slot succeeded on the altered storage (alteration not detected)"
-					}
-				}
-
-				return d
-			}
-
-			if r.Panic != nil {
-				dd := d()
-				dd["call"], dd["panic"], dd["stack"] = "GetMasterKey", fmt.Sprint(r.Panic), r.Stack
-
-				sig := sigPanic
-				if class == "add-nil" { // the decoded storage holds a map entry whose value is nil
-					sig = sigPanicNilSlot
-				}
-
-				if c.Violation(sig, dd) {
-					return false
-				}
-
-				cn["known_"+sig]++
-
-				return true
-			}
-
-			if livePair {
-				cn["corr_live_retrievals_checked"]++
-			}
-
-			if r.Err != nil {
-				if class == "baseline" && livePair {
-					c.Violation(sigLiveLost, d())
-
-					return false
-				}
-
-				if livePair {
-					cn["corr_detected_by_"+errTag(r.Err)]++
-				}
+		for _, id := range st.ids {
+			if decErr != nil {
+				intact = append(intact, id)
 
 				continue
 			}
 
-			// a key came back
-			switch {
-			case !bytes.Equal(r.Key, st.master):
-				c.Violation(sigWrongKey, d())
+			if s := decoded.GetKeySlots()[id]; s != nil && s.Algorithm == st.base.KeySlots[id].Algorithm && bytes.Equal(s.EncryptedKey, st.base.KeySlots[id].EncryptedKey) {
+				intact = append(intact, id)
+			}
+		}
+
+		authPool := intact
+		if len(authPool) == 0 || opRng.IntN(6) == 0 {
+			authPool = st.ids
+		}
+
+		auth := pick(opRng, authPool)
+		op = &preOp{Kind: "add", AuthID: auth, AuthCred: fmt.Sprintf("k%d", st.slots[auth]), authPriv: p.keys[st.slots[auth]].Priv}
+
+		for _, id := range intact {
+			if id == auth {
+				op.Intact = true
+			}
+		}
+
+		slotsNow := len(st.ids)
+		if decErr == nil {
+			slotsNow = len(decoded.GetKeySlots())
+		}
+
+		switch {
+		case slotsNow >= 2 && opRng.IntN(2) == 0:
+			op.Kind = "delete"
+		case v.Name == "add-attacker-blob" && len(v.ExtraIDs) > 0 && opRng.IntN(2) == 0:
+			// the injected slot authenticates the operation with the key it was encrypted for
+			op.Kind, op.AuthID, op.AuthCred, op.authPriv, op.Intact = "add-via-injected-slot", v.ExtraIDs[0], "attacker", p.attacker.Priv, false
+		}
+
+		if op.Kind != "delete" {
+			var free, keys []string
+
+			keyIdx := map[string]int{}
+
+			for _, id := range universe2 {
+				if !idSet[id] {
+					free = append(free, id)
+				}
+			}
+
+			for _, cr := range creds {
+				if cr.Idx >= 0 {
+					keys = append(keys, cr.Name)
+					keyIdx[cr.Name] = cr.Idx
+				}
+			}
+
+			op.NewID, op.NewKey = pick(opRng, free), pick(opRng, keys)
+			op.newKeyIdx = keyIdx[op.NewKey]
+			idSet[op.NewID] = true
+		}
+
+		err, pn, stk := callErr(func() error {
+			if op.Kind == "delete" {
+				return ks.DeleteKeySlot(op.AuthID, op.authPriv)
+			}
+
+			return ks.AddKeySlot(op.NewID, p.keys[op.newKeyIdx].Pub, op.AuthID, op.authPriv)
+		})
+
+		op.OK, op.Err = err == nil && pn == nil, errStr(err)
+
+		if pn != nil {
+			d := detailBase()
+			d["call"], d["panic"], d["stack"] = op.Kind, fmt.Sprint(pn), stk
+			c.Violation(sigPanic, d)
+
+			return false
+		}
+
+		kind := "add"
+		if op.Kind == "delete" {
+			kind = "delete"
+		}
+
+		if class == "baseline" {
+			if err != nil {
+				d := detailBase()
+				d["note"] = "control: a valid AddKeySlot / DeleteKeySlot on the unaltered, freshly loaded storage was refused"
+				c.Violation("valid-operation-refused-in-setup", d)
 
 				return false
-			case livePair:
-				if class == "baseline" {
-					continue
-				}
+			}
 
-				undetected++
+			cn["corr_then_"+kind+"_control_ok"]++
+		} else {
+			cn["corr_then_"+kind+"_checked"]++
+			cn["corr_then_op_"+class]++
 
-				switch {
-				case loadErr != nil:
-					cn["corr_"+class+"_retrieval_ok_after_failed_unmarshal_info"]++
-				case strictSig == "":
-					cn["corr_"+class+"_undetected_info"]++
-				default:
-					if c.Violation(strictSig, d()) {
-						return false
-					}
+			if op.Intact {
+				cn["corr_then_op_with_untouched_authenticating_slot"]++
+			}
+		}
 
-					cn["known_"+strictSig]++
+		accept := func() { // the accepted operation is taken into the expectation of the retrievals
+			if op.Kind == "delete" {
+				delete(liveMap, op.AuthID)
+				deletedNow = op.AuthID
+			} else {
+				liveMap[op.NewID] = op.newKeyIdx
+			}
+		}
 
-					return true // known finding: one report per variant
-				}
-			default:
-				sig := sigNeverAdded
+		switch {
+		case err != nil:
+			cn["corr_then_op_refused"]++
+			cn["corr_then_op_refused_by_"+errTag(err)]++
+		case class == "baseline" || loadErr != nil || (strictSig == "" && !tagInvisible[class]):
+			// unaltered or informational class
+			if class != "baseline" {
+				cn["corr_then_op_accepted_info_"+class]++
+			}
 
-				switch {
-				case class == "rename-preserved":
-					sig = sigRenameKnown
-				case class == "shift":
-					sig = sigShift
-				case live:
-					sig = sigWrongPriv
-				case id == st.deleted:
-					sig = sigDeleted
-				}
+			accept()
+		default:
+			d := detailBase()
+			d["effect"] = "AddKeySlot / DeleteKeySlot retrieved the master key from the altered storage without detecting the alteration, changed the slot set and re-signed it"
 
-				cn["nonlive_pair_recovered_key_"+class]++
-
-				if c.Violation(sig, d()) {
+			if tagInvisible[class] { // same witness as the undetected retrieval of this class: reported under its signature, once
+				if c.Violation(strictSig, d) {
 					return false
 				}
 
-				cn["known_"+sig]++
+				cn["known_"+strictSig]++
 
 				return true
+			}
+
+			// reported, and the retrieval oracle below still applies unchanged: every originally-live retrieval must fail, nothing injected may recover the key
+			if c.Violation(sigTamperOp, d) {
+				violated = true
+			} else {
+				cn["known_"+sigTamperOp]++
+			}
+
+			accept()
+		}
+	}
+
+	// ---- the retrieval matrix -------------------------------------------------------------------------------------------------
+	undetected := 0
+
+	// probe returns (stop, result): stop = a violation or known finding was reported for this variant
+	probe := func(ks *keystorage.KeyStorage, lerr error) (bool, bool) {
+		for _, id := range sortedKeys(idSet) {
+			keyIdx, live := liveMap[id]
+			_, origLive := st.slots[id]
+
+			for _, cr := range creds {
+				r := get(ks, id, cr.Priv)
+				cn["corr_retrievals"]++
+
+				livePair := live && cr.Idx == keyIdx
+
+				d := func() map[string]any {
+					d := detailBase()
+					d["probe_id"], d["probe_cred"], d["probe_private_key"], d["live_pair"] = id, cr.Name, cr.Priv, livePair
+					d["err"], d["got_key_hex"], d["load_err"] = errStr(r.Err), hex.EncodeToString(r.Key), errStr(lerr)
+
+					if r.Err == nil && r.Panic == nil {
+						d["effect"] = "a pairing that was never live recovered the master key from the altered storage"
+						if livePair {
+							d["effect"] = "retrieval through a live slot succeeded on the altered storage (alteration not detected)"
+						}
+					}
+
+					return d
+				}
+
+				if r.Panic != nil {
+					dd := d()
+					dd["call"], dd["panic"], dd["stack"] = "GetMasterKey", fmt.Sprint(r.Panic), r.Stack
+
+					sig := sigPanic
+					if class == "add-nil" { // the decoded storage holds a map entry whose value is nil
+						sig = sigPanicNilSlot
+					}
+
+					if c.Violation(sig, dd) {
+						return true, false
+					}
+
+					cn["known_"+sig]++
+
+					return true, true
+				}
+
+				if livePair {
+					cn["corr_live_retrievals_checked"]++
+				}
+
+				if r.Err != nil {
+					if class == "baseline" && livePair {
+						c.Violation(sigLiveLost, d())
+
+						return true, false
+					}
+
+					if livePair && opRng == nil {
+						cn["corr_detected_by_"+errTag(r.Err)]++
+					}
+
+					continue
+				}
+
+				// a key came back
+				switch {
+				case !bytes.Equal(r.Key, st.master):
+					c.Violation(sigWrongKey, d())
+
+					return true, false
+				case livePair:
+					if class == "baseline" {
+						continue
+					}
+
+					undetected++
+
+					switch {
+					case lerr != nil:
+						cn["corr_"+class+"_retrieval_ok_after_failed_unmarshal_info"]++
+					case strictSig == "":
+						cn["corr_"+class+"_undetected_info"]++
+					default:
+						if c.Violation(strictSig, d()) {
+							return true, false
+						}
+
+						cn["known_"+strictSig]++
+
+						return true, true // known finding: one report per variant
+					}
+				default:
+					sig := sigNeverAdded
+
+					switch {
+					case class == "rename-preserved":
+						sig = sigRenameKnown
+					case class == "shift":
+						sig = sigShift
+					case origLive && live:
+						sig = sigWrongPriv
+					case id == st.deleted || id == deletedNow:
+						sig = sigDeleted
+					}
+
+					cn["nonlive_pair_recovered_key_"+class]++
+
+					if c.Violation(sig, d()) {
+						return true, false
+					}
+
+					cn["known_"+sig]++
+
+					return true, true
+				}
+			}
+		}
+
+		return false, true
+	}
+
+	if stop, res := probe(ks, loadErr); stop {
+		return res && !violated
+	}
+
+	if opRng != nil {
+		// one more round trip: nothing that was undetectable before may become retrievable after re-serialization
+		phase = "after-operation-and-round-trip"
+
+		var fresh *keystorage.KeyStorage
+
+		rtErr, pn, stk := callErr(func() error {
+			data, merr := ks.MarshalBinary()
+			if merr != nil {
+				return fmt.Errorf("marshal: %w", merr)
+			}
+
+			fresh = &keystorage.KeyStorage{}
+
+			return fresh.UnmarshalBinary(data)
+		})
+		if pn != nil {
+			d := detailBase()
+			d["call"], d["panic"], d["stack"] = "MarshalBinary/UnmarshalBinary", fmt.Sprint(pn), stk
+			c.Violation(sigPanic, d)
+
+			return false
+		}
+
+		if fresh != nil {
+			if rtErr != nil {
+				if class == "baseline" {
+					d := detailBase()
+					d["err"] = errStr(rtErr)
+					c.Violation(sigLiveLost, d)
+
+					return false
+				}
+
+				cn["corr_then_roundtrip_refused"]++
+			}
+
+			lerr := loadErr
+			if lerr == nil {
+				lerr = rtErr
+			}
+
+			cn["corr_then_roundtrip_matrices"]++
+
+			if stop, res := probe(fresh, lerr); stop {
+				return res && !violated
 			}
 		}
 	}
 
-	if class != "baseline" && undetected == 0 {
+	if class != "baseline" && undetected == 0 && opRng == nil {
 		cn["corr_"+class+"_detected"]++
 	}
 
-	return true
+	return !violated
 }
